@@ -16,6 +16,8 @@ use std::collections::BTreeSet;
 use vh_core::{pick_idx, Ctx, Report, RunCfg};
 
 pub const NKEYS: usize = 16;
+/// `MAX_PACKET_SIZE` in driver.rs = the store's `max_value_bytes`
+pub const SIZE_LIMIT: usize = 5 * 1024 * 1024;
 /// `MAX_RECORDS_COUNT / 10` in record_store.rs: clean-up only applies from this many records
 pub const CLEANUP_THRESHOLD: usize = 16 * 1024 / 10;
 
@@ -34,6 +36,9 @@ pub enum RangeSel {
 pub enum Op {
     /// keys are numbered by increasing distance from the node
     Put { k: u8, ver: u8 },
+    /// a record of exactly the size limit (5 MiB) or more for key k: must be refused, whatever the
+    /// fill level, and a refusal leaves the held set unchanged
+    PutOversized { k: u8, extra: u8 },
     Run,
     Ack { i: u16 },
     AckAll,
@@ -66,6 +71,7 @@ fn range_strategy() -> impl Strategy<Value = RangeSel> {
 fn op_strategy() -> impl Strategy<Value = Op> {
     prop_oneof![
         40 => (0u8..NKEYS as u8, 0u8..3).prop_map(|(k, ver)| Op::Put { k, ver }),
+        1 => (0u8..NKEYS as u8, 0u8..3).prop_map(|(k, extra)| Op::PutOversized { k, extra }),
         8 => Just(Op::Run),
         12 => any::<u16>().prop_map(|i| Op::Ack { i }),
         14 => Just(Op::AckAll),
@@ -269,6 +275,26 @@ pub fn check(case: &Case, ctx: &mut Ctx) {
                 if listed != after && !ctx.failed() {
                     ctx.fail("listed_set_diverges_from_model", format!("{at}: model {listed:?}, store {after:?}"));
                 }
+                listed = after;
+            }
+            Op::PutOversized { k, extra } => {
+                let ki = *k as usize % NKEYS;
+                let key = w.uni[ki].0.clone();
+                static BIG: std::sync::OnceLock<Vec<u8>> = std::sync::OnceLock::new();
+                let big = BIG.get_or_init(|| chunk_value_of_total_len(SIZE_LIMIT + 2, 0xb16));
+                let v = big[..SIZE_LIMIT + (*extra as usize).min(2)].to_vec();
+                let before = w.real_listed(ctx, &at);
+                let res = w.sim.put_local(record(&key, v));
+                let after = w.real_listed(ctx, &at);
+                ctx.label("oversized_put");
+                if res.is_ok() {
+                    ctx.precondition_failed("oversized_record_accepted", format!("{at}: a value of the size limit or more was accepted (C04's subject); case not judged further"));
+                    return;
+                }
+                if after != before {
+                    ctx.fail("refusal_changed_held_set", format!("{at}: oversized record refused ({res:?}) at {} of {cap} records held, yet the held set went {before:?} -> {after:?}", before.len()));
+                }
+                ctx.label_if(before.len() >= cap, "oversized_put_at_capacity");
                 listed = after;
             }
             Op::Run => {
@@ -502,5 +528,6 @@ pub fn run(cfg: RunCfg) {
         "stores of 1638+-delta records (clean-up threshold), range at/above a held distance; every record's fate checked",
         large_strategy, check_large
     );
+    vh_core::fuzz_section!(rep, "capacity", case_strategy, check, "sec_store", "store", 6_000, 240, 8);
     rep.finish();
 }
